@@ -96,15 +96,15 @@ TB_CONV = ("Trusted: Coq 8.16.1 kernel incl. vm_compute; translator T1 (template
 CLAIMS["C02"] = {
   "text": "Theorem C02_structure_sound (Props/C02.v) over the nested executable model Model/Conv.v: for EVERY environment of classes and enums, every type expression of the modelled "
           "universe (Any, primitives, enums, literals, lists/sequences, homogeneous and heterogeneous tuples, sets, frozensets, mappings, Optional, classes incl. recursive ones, NewType, "
-          "Annotated; arbitrary nesting), EVERY input value (no hypothesis on the input: valid, corrupted, junk), Converter and BaseConverter, both validation modes, forbid_extra_keys on/off "
+          "Annotated; arbitrary nesting), EVERY input value (no hypothesis on the input: valid, corrupted, junk), Converter and BaseConverter, both validation modes, BOTH strategies, forbid_extra_keys on/off "
           "and every amount of fuel: if structure returns v then v conforms to T at every depth (exact classes, conforming elements/keys/values/attributes, literal membership, exact tuple arity). "
           "Induction on the fuel; the class case is the class-level theorems C02_class_attributes_detailed/fast/interpretive (every attribute of an accepted instance is the default or what the "
           "attribute's OWN handler returned -- never another attribute's value or the raw input), proved for any class, options, overrides and payload object. C02_list_elementwise: accepted "
-          "sequences are structured element by element (nothing dropped). The full statement is FALSE under the tuple strategy: C02_refuted_tuple_strategy (finding F27, witness replayed on the "
-          "implementation). Tie: T1 (template flags) + CONV lane (model = implementation on every generated case, incl. mutated payloads and junk) + direct oracles (an independent Python "
+          "sequences are structured element by element (nothing dropped). Under the tuple strategy the theorem needs structure_attrs_fromtuple to pass keyword-only attributes by keyword (flag read off the source by T1, obligation "
+          "src_tuple_passes_kw_only_by_keyword); C02_refuted_positional_tuple_strategy shows the positional variant unsound (finding F27, found by this check, repaired in /repo 93c67fb). Tie: T1 (template flags) + CONV lane (model = implementation on every generated case, incl. mutated payloads and junk) + direct oracles (an independent Python "
           "conformance checker on every returned value; a compositional check that every component of an accepted payload is itself accepted at its declared type with the result the container holds).",
   "note": TB_CONV + " Not in the model (oracle/lane only or not covered): TypedDict / NamedTuple / union / generic positions inside nested types (their class-level behaviour is C04/C09/C10/C12/C13/C17), "
-          "deque, Counter, defaultdict, Final, type aliases, Path; soundness under the tuple strategy holds only for classes without kw_only / init=False attributes (F27) and has no theorem yet.",
+          "deque, Counter, defaultdict, Final, type aliases, Path;",
   "technique": "Coq proof (induction on fuel over an executable nested model; class-level soundness of the four templates) + AST translator + differential correspondence + direct oracles",
   "design_ref": "DESIGN.md 4/C02"}
 
